@@ -308,11 +308,9 @@ def _store_ss(I, fr, callee, args, dest, argops, line):
 F1 = {
     'sqrt': 'sqrt', 'floor': 'floor', 'ceil': 'ceil', 'trunc': 'trunc', 'round': 'round',
     'round_ties_even': 'roundeven', 'sin': 'sin', 'cos': 'cos', 'tan': 'tan', 'exp': 'exp', 'acos': 'acos',
-    'asin': 'asin', 'atan': 'atan', 'ln': 'ln', 'exp2': 'exp2', 'log2': 'log2', 'signum': 'signum',
-    'fract': 'fract_std',
+    'asin': 'asin', 'atan': 'atan', 'ln': 'ln', 'exp2': 'exp2', 'log2': 'log2',
 }
-F2 = {'copysign': 'copysign', 'atan2': 'atan2', 'powf': 'powf', 'div_euclid': 'div_euclid',
-      'rem_euclid': 'rem_euclid', 'min': 'fmin', 'max': 'fmax'}
+F2 = {'copysign': 'copysign', 'atan2': 'atan2', 'powf': 'powf', 'min': 'fmin', 'max': 'fmax'}
 
 
 def _reg_float():
@@ -325,8 +323,9 @@ def _reg_float():
         LEAF[base + 'abs'] = lambda I, fr, callee, args, dest, argops, line: tm.f1('fabs', args[0])
         LEAF[base + 'mul_add'] = lambda I, fr, callee, args, dest, argops, line: tm.fma(args[0], args[1], args[2])
         LEAF[base + 'is_nan'] = lambda I, fr, callee, args, dest, argops, line: tm.f2('fne', args[0], args[0])
-        LEAF[base + 'is_finite'] = lambda I, fr, callee, args, dest, argops, line: mk('is_finite', args[0])
-        LEAF[base + 'is_infinite'] = lambda I, fr, callee, args, dest, argops, line: mk('is_infinite', args[0])
+        # is_finite(x)  ==  |x| < inf   (definition in core; written out so that SIMD forms compare equal)
+        LEAF[base + 'is_finite'] = (lambda w: lambda I, fr, callee, args, dest, argops, line: tm.f2('flt', tm.f1('fabs', args[0]), tm.fconst(float('inf'), 4 if w == 'f32' else 8)))(w)
+        LEAF[base + 'is_infinite'] = (lambda w: lambda I, fr, callee, args, dest, argops, line: tm.f2('feq', tm.f1('fabs', args[0]), tm.fconst(float('inf'), 4 if w == 'f32' else 8)))(w)
         LEAF[base + 'is_sign_negative'] = lambda I, fr, callee, args, dest, argops, line: tm.signbit(args[0])
         LEAF[base + 'is_sign_positive'] = lambda I, fr, callee, args, dest, argops, line: tm.b_not(tm.signbit(args[0]))
         LEAF[base + 'to_bits'] = lambda I, fr, callee, args, dest, argops, line: args[0]
